@@ -5,6 +5,13 @@
 //             mixed with pure queries whose results are logged; values grow to ~1200 bytes so that the inline limit,
 //             every doubling and the malloc->realloc switch of resize() at 1 KiB are crossed many times
 //   --mode 1  integers: boundary and random 32/64-bit patterns (logged as 16-bit limbs) -> text -> back
+//   --mode 2  large single jumps: four String variables whose buffers are at and beyond the 1 KiB growth-policy switch
+//             of resize() receive one call that asks for much more (or less) than they hold - append of a long literal /
+//             run / variable / of itself / of a piece of itself, append(buf, n), resize up and down, assignment of a long
+//             value into an existing buffer, reserve, String(n0, "%s", ..) with a too small n0 >= 1 KiB.  The requested
+//             lengths are aimed at cap(): just beyond it, both sides of 1.5x, 2x, 3x, 4x and random factors up to 6x;
+//             values up to 12 000 bytes (--mode 3: 30 000).  Buffers never shrink, so a variable is now and then replaced by a
+//             newly constructed String (logged as the assignment of that value).
 // In-range arguments only, non-empty patterns, no NUL bytes (the property's quantifier).  --avoid lists open findings
 // whose shapes must not be generated (SelfAppend, AssignOverlap, LongMin).
 #include <asl/String.h>
@@ -145,6 +152,281 @@ static void runInts(Rng& rng, Log& log, long events, bool avoidLongMin)
 	}
 }
 
+// ------------------------------------------------------------------------------------------------------------------
+// mode 2/3: large single jumps around the growth policy of resize()
+static int jumpTarget1(Rng& r, int cap);
+static int jumpTarget(Rng& r, int cap, int maxlen)
+{
+	int n = 0;
+	for (int i = 0; i < 12; i++) // prefer a request that is still allowed
+	{
+		n = jumpTarget1(r, cap);
+		if (n <= maxlen) break;
+	}
+	return n;
+}
+static int jumpTarget1(Rng& r, int cap)
+{
+	// requested length n such that n + 1 (bytes + NUL) relates to the buffer size as the growth policy's cases do
+	static const int NUM[] = { 2, 3, 3, 4, 4, 4, 5, 6, 8, 12 }; // in halves of cap(): 1x 1.5x 2x 2.5x 3x 4x 6x (+-2)
+	int k = r.below(12);
+	int need;
+	if (k == 0) need = cap + r.range(1, 3);
+	else if (k <= 8) need = (int)((long long)cap * NUM[r.below(10)] / 2) + r.range(-2, 2);
+	else need = cap + r.range(1, 5 * cap);
+	if (need <= cap) need = cap + 1;
+	return need - 1;
+}
+static int crossLen(Rng& r)
+{
+	static const int B[] = { 0, 1, 15, 16, 23, 24, 511, 1021, 1022, 1023, 1024, 1025, 2046, 2047, 2048, 4094, 4095, 4096, 4097 };
+	return r.chance(70) ? B[r.below((int)(sizeof B / sizeof B[0]))] : r.range(0, 5000);
+}
+
+static void runBig(Rng& rng, Log& log, long events, int maxlen, bool avoidSelfAppend, bool avoidOverlap)
+{
+	String* v[NV + 1];
+	for (int i = 1; i <= NV; i++) v[i] = new String();
+	v[0] = 0;
+	long done = 0;
+	long guard = 0;
+	int renew = 0;
+	while (done < events)
+	{
+		if (++guard > 200 * events + 100000) die("big mode: generator makes no progress");
+		int x = rng.range(1, NV), y = rng.range(1, NV);
+		int r = rng.below(100);
+		if (renew) { x = renew; r = 94; renew = 0; } // the jump drawn for this variable was not possible any more
+		String& s = *v[x];
+		int len = s.length(), cap = s.cap();
+		std::string e;
+		bool inplace = true;
+		if (cap < 600 && r < 64) r = 94;                               // small buffer: give it a long value first
+		else if (cap + cap / 2 > maxlen && r < 64 && rng.chance(70)) r = 94; // no room for another jump: renew the buffer
+		if (r < 24) // ---- one append that needs much more than the buffer holds
+		{
+			int n = jumpTarget(rng, cap, maxlen);
+			int m = n - len;
+			if (m <= 0 || n > maxlen) { renew = x; continue; }
+			int how = rng.below(5);
+			if (how == 0)
+			{
+				std::string t = randBytes(rng, m);
+				CBuf b(t);
+				if (rng.chance(50)) s += (const char*)b; else s << (const char*)b;
+				e = "{\"op\":\"append\"," + kv("x", x) + "," + kb("s", t);
+			}
+			else if (how == 1)
+			{
+				std::string t = randBytes(rng, m + rng.range(0, 40));
+				CBuf b(t);
+				s.append((const char*)b, m);
+				e = "{\"op\":\"appendN\"," + kv("x", x) + "," + kb("s", t) + "," + kv("n", m);
+			}
+			else
+			{
+				char c = (char)rng.range(33, 126);
+				String t = String::repeat(c, m);
+				if (how == 2) s += t; else if (how == 3) s << t; else s.append(*t, m);
+				e = "{\"op\":\"appendRepeat\"," + kv("x", x) + "," + kv("c", (unsigned char)c) + "," + kv("n", m);
+			}
+		}
+		else if (r < 36) // ---- resize up to a length aimed at the buffer size
+		{
+			int n = jumpTarget(rng, cap, maxlen);
+			if (n > maxlen) { renew = x; continue; }
+			char c = (char)rng.range(33, 126);
+			s.resize(n);
+			for (int q = len; q < n; q++) s[q] = c;
+			e = "{\"op\":\"resize\"," + kv("x", x) + "," + kv("n", n) + "," + kv("c", (unsigned char)c);
+		}
+		else if (r < 42) // ---- resize up or down across 1024 / 2048 / 4096
+		{
+			int n = crossLen(rng);
+			if (n > maxlen) continue;
+			char c = randByte(rng);
+			s.resize(n);
+			for (int q = len; q < n; q++) s[q] = c;
+			e = "{\"op\":\"resize\"," + kv("x", x) + "," + kv("n", n) + "," + kv("c", (unsigned char)c);
+		}
+		else if (r < 50) // ---- the string appended to itself / a piece of itself / another (long) variable
+		{
+			int how = rng.below(3);
+			if (how == 0)
+			{
+				if (2 * len > maxlen || len == 0 || avoidSelfAppend) continue;
+				if (rng.chance(50)) s += s; else s << s;
+				e = "{\"op\":\"appendVar\"," + kv("x", x) + "," + kv("y", x);
+			}
+			else if (how == 1)
+			{
+				int k = rng.chance(50) ? rng.range(0, len < 3 ? len : 3) : rng.range(0, len);
+				if (2 * len - k > maxlen) continue;
+				if (avoidSelfAppend && k < len) continue;
+				s += *s + k;
+				e = "{\"op\":\"appendPiece\"," + kv("x", x) + "," + kv("k", k);
+			}
+			else
+			{
+				if (len + v[y]->length() > maxlen) continue;
+				if (avoidSelfAppend && x == y && len > 0) continue;
+				if (rng.chance(50)) s += *v[y]; else s << *v[y];
+				e = "{\"op\":\"appendVar\"," + kv("x", x) + "," + kv("y", y);
+			}
+		}
+		else if (r < 60) // ---- a long value assigned into the existing buffer
+		{
+			int n = rng.chance(70) ? jumpTarget(rng, cap, maxlen) : crossLen(rng);
+			if (n > maxlen) continue;
+			int how = rng.below(4);
+			if (how == 0)
+			{
+				std::string t = randBytes(rng, n);
+				CBuf b(t);
+				s = (const char*)b;
+				e = "{\"op\":\"assign\"," + kv("x", x) + "," + kb("s", t);
+			}
+			else if (how == 1)
+			{
+				std::string t = randBytes(rng, n + rng.range(0, 40));
+				CBuf b(t);
+				s.assign((const char*)b, n);
+				e = "{\"op\":\"assignN\"," + kv("x", x) + "," + kb("s", t) + "," + kv("n", n);
+			}
+			else if (how == 2)
+			{
+				char c = (char)rng.range(33, 126);
+				String t = String::repeat(c, n);
+				s = t;
+				e = "{\"op\":\"assignRepeat\"," + kv("x", x) + "," + kv("c", (unsigned char)c) + "," + kv("n", n);
+			}
+			else { s = *v[y]; e = "{\"op\":\"assignVar\"," + kv("x", x) + "," + kv("y", y); }
+		}
+		else if (r < 64) // ---- room without a new length
+		{
+			int n = rng.chance(70) ? jumpTarget(rng, cap, maxlen) : crossLen(rng);
+			if (n > maxlen) continue;
+			s.resize(n, true, false);
+			e = "{\"op\":\"reserve\"," + kv("x", x) + "," + kv("n", n);
+		}
+		else if (r < 78) // ---- small calls between the jumps
+		{
+			int how = rng.below(8);
+			if (how <= 1)
+			{
+				if (len + 1 > maxlen) continue;
+				char c = randByte(rng);
+				if (rng.chance(50)) s += c; else s << c;
+				e = "{\"op\":\"appendChar\"," + kv("x", x) + "," + kv("c", (unsigned char)c);
+			}
+			else if (how == 2)
+			{
+				std::string t = randBytes(rng, rng.range(0, 30));
+				if (len + (int)t.size() > maxlen) continue;
+				CBuf b(t);
+				s += (const char*)b;
+				e = "{\"op\":\"append\"," + kv("x", x) + "," + kb("s", t);
+			}
+			else if (how == 3) { s.clear(); e = "{\"op\":\"clear\"," + kv("x", x); }
+			else if (how == 4)
+			{
+				int k = rng.range(0, len);
+				s.data()[k] = 0;
+				s.fix();
+				e = "{\"op\":\"fixAt\"," + kv("x", x) + "," + kv("k", k);
+			}
+			else if (how == 5)
+			{
+				int k = rng.chance(30) ? (rng.chance(50) ? 0 : len) : rng.range(0, len);
+				if (avoidOverlap && k > 0 && k < len) continue;
+				s = *s + k;
+				e = "{\"op\":\"assignPiece\"," + kv("x", x) + "," + kv("k", k);
+			}
+			else if (how == 6) { s.trim(); e = "{\"op\":\"trim\"," + kv("x", x); }
+			else
+			{
+				if (len + 12 > maxlen) continue;
+				int n = rng.chance(50) ? -2147483647 : (int)(rng.next() >> rng.range(33, 63));
+				s << n;
+				e = "{\"op\":\"appendInt\"," + kv("x", x) + "," + kv("n", n);
+			}
+		}
+		else if (r < 94) // ---- queries (those that stay cheap for TLC on values of this size)
+		{
+			inplace = false;
+			int how = rng.below(3);
+			if (how == 0)
+			{
+				// comparison, when it is decided early (the specification's Compare recurses byte by byte)
+				const String& t = *v[y];
+				int d = 0, lim = len < t.length() ? len : t.length();
+				while (d < lim && s[d] == t[d]) d++;
+				if (d > 300) continue;
+				int c = s.compare(t);
+				e = "{\"op\":\"compare\"," + kv("x", x) + "," + kv("y", y) + "," + kv("r", c < 0 ? -1 : c > 0 ? 1 : 0) + "," + kv("eq", s == t ? 1 : 0) + "," + kv("lt", s < t ? 1 : 0);
+			}
+			else if (how == 1)
+			{
+				int i = rng.range(-len, len), n = rng.chance(20) ? len + 5 : rng.range(0, len);
+				String t = s.substr(i, n);
+				checkSane(t, "substr");
+				e = "{\"op\":\"substr\"," + kv("x", x) + "," + kv("i", i) + "," + kv("n", n) + "," + kb("r", bytesOf(t));
+			}
+			else
+			{
+				// printf-style constructor whose first buffer (n0 >= 1 KiB) is too small for the text: its retry loop resizes
+				if (len < 1100) continue;
+				int n0 = rng.chance(50) ? rng.range(1023, 1026) : rng.range(1023, len);
+				int n = (int)(rng.next() >> rng.range(33, 63));
+				int shape = rng.below(2);
+				String t = shape == 0 ? String(n0, "%s", *s) : String(n0, "[%d] %s", n, *s);
+				checkSane(t, "String(n0, fmt, ..)");
+				e = "{\"op\":\"fmt\"," + kv("x", x) + "," + kv("shape", shape) + "," + kv("n", n) + "," + kv("w", 0) + "," + kb("r", bytesOf(t));
+			}
+		}
+		else // ---- a new object (buffers never shrink): exact fit for a value around the switch and its doublings
+		{
+			static const int F[] = { 600, 1000, 1021, 1022, 1023, 1024, 1100, 1500, 2046, 2047, 2048, 3000 };
+			int n = rng.chance(60) ? F[rng.below((int)(sizeof F / sizeof F[0]))] : rng.range(900, 2200);
+			if (n > maxlen) continue;
+			int how = rng.below(3);
+			String* fresh = 0;
+			if (how == 0)
+			{
+				std::string t = randBytes(rng, n);
+				CBuf b(t);
+				fresh = rng.chance(50) ? new String((const char*)b) : new String((const char*)b, n);
+				e = "{\"op\":\"assign\"," + kv("x", x) + "," + kb("s", t);
+			}
+			else if (how == 1)
+			{
+				char c = (char)rng.range(33, 126);
+				fresh = new String(String::repeat(c, n));
+				e = "{\"op\":\"assignRepeat\"," + kv("x", x) + "," + kv("c", (unsigned char)c) + "," + kv("n", n);
+			}
+			else
+			{
+				int ly = v[y]->length();
+				if (ly < 1000) continue;
+				int i = rng.range(0, ly - 1000), j = rng.range(i + 1000, ly);
+				fresh = rng.chance(50) ? new String(v[y]->substring(i, j)) : new String(v[y]->substr(i, j - i));
+				e = "{\"op\":\"assignSubstring\"," + kv("x", x) + "," + kv("y", y) + "," + kv("i", i) + "," + kv("j", j);
+			}
+			delete v[x];
+			v[x] = fresh;
+			for (int q = 1; q <= NV; q++) checkSane(*v[q], "after a call");
+			log.line(e + "," + kb("v", bytesOf(*fresh)) + "}");
+			done++;
+			continue;
+		}
+		for (int q = 1; q <= NV; q++) checkSane(*v[q], "after a call");
+		if (inplace) e += "," + kb("v", bytesOf(s));
+		log.line(e + "}");
+		done++;
+	}
+	for (int i = 1; i <= NV; i++) delete v[i];
+}
+
 int main(int argc, char** argv)
 {
 	Args a(argc, argv);
@@ -155,6 +437,11 @@ int main(int argc, char** argv)
 	if (a.mode == 1)
 	{
 		runInts(rng, log, a.events, avoidLongMin);
+		return 0;
+	}
+	if (a.mode == 2 || a.mode == 3)
+	{
+		runBig(rng, log, a.events, a.mode == 2 ? 12000 : 30000, avoidSelfAppend, avoidOverlap);
 		return 0;
 	}
 	String* v[NV + 1];
